@@ -1,5 +1,4 @@
 import UralModel.Py.Str
-<<<<<<< HEAD
 /-!
 # Lemmas about the `str` prelude used by C08: `split`/`join` round trip, `lower` versus the
 dot-directed operations (`lstrip(".")`, `rstrip(".")`, `rsplit(".", 1)`).
@@ -116,18 +115,11 @@ theorem lstripChars_of_not_mem (s : Str) (h : '.' ∉ s) : lstripChars s ['.'] =
 /-- `(s + ".").rstrip(".") == s.rstrip(".")` -/
 theorem rstripChars_append_dot (s : Str) : rstripChars (s ++ ['.']) ['.'] = rstripChars s ['.'] := by
   simp [rstripChars]
-=======
-/-! Lemmas on the `str` prelude: `splitFirst`, `splitOn`, `join`, `lstripChars`/`rstripChars`. -/
-namespace Ural.Py
-
-/-! ## `splitFirst` (`s.split(c, 1)` / `s.partition(c)`) -/
->>>>>>> agent/c15c20
 
 theorem span_loop_eq {α : Type} (p : α → Bool) (l acc : List α) :
     List.span.loop p l acc = (acc.reverse ++ l.takeWhile p, l.dropWhile p) := by
   induction l generalizing acc with
   | nil => simp [List.span.loop]
-<<<<<<< HEAD
   | cons a as ih =>
     simp only [List.span.loop, List.takeWhile_cons, List.dropWhile_cons]
     cases h : p a <;> simp [ih]
@@ -168,208 +160,5 @@ theorem splitLast_snd_not_mem (s : Str) (sep : Char) : sep ∉ (splitLast s sep)
   rw [List.mem_reverse] at h
   have := mem_takeWhile_pos _ _ _ h
   simp at this
-=======
-  | cons a l ih =>
-    cases h : p a
-    · simp [List.span.loop, h]
-    · simp [List.span.loop, h, ih]
-
-theorem span_eq {α : Type} (p : α → Bool) (l : List α) :
-    List.span p l = (l.takeWhile p, l.dropWhile p) := by
-  simp [List.span, span_loop_eq]
-
-theorem splitFirst_nil (sep : Char) : splitFirst [] sep = ([], none) := by
-  simp [splitFirst, span_eq]
-
-theorem splitFirst_cons (c sep : Char) (s : Str) :
-    splitFirst (c :: s) sep =
-      if c = sep then ([], some s) else (c :: (splitFirst s sep).1, (splitFirst s sep).2) := by
-  unfold splitFirst
-  rw [span_eq, span_eq]
-  by_cases h : c = sep
-  · simp [h]
-  · simp only [if_neg h]
-    rw [List.takeWhile_cons_of_pos (by simpa using h), List.dropWhile_cons_of_pos (by simpa using h)]
-    cases List.dropWhile (fun x => decide (x ≠ sep)) s <;> rfl
-
-/-- no separator: `(s, None)` -/
-theorem splitFirst_notMem (s : Str) (sep : Char) (h : sep ∉ s) : splitFirst s sep = (s, none) := by
-  induction s with
-  | nil => exact splitFirst_nil sep
-  | cons c s ih =>
-    have hc : c ≠ sep := fun e => h (by simp [e])
-    have hs : sep ∉ s := fun e => h (by simp [e])
-    rw [splitFirst_cons, if_neg hc, ih hs]
-
-/-- a separator-free prefix is carried over -/
-theorem splitFirst_append_left (a x : Str) (sep : Char) (h : sep ∉ a) :
-    splitFirst (a ++ x) sep = (a ++ (splitFirst x sep).1, (splitFirst x sep).2) := by
-  induction a with
-  | nil => simp
-  | cons c a ih =>
-    have hc : c ≠ sep := fun e => h (by simp [e])
-    have hs : sep ∉ a := fun e => h (by simp [e])
-    rw [List.cons_append, splitFirst_cons, if_neg hc, ih hs]
-    simp
-
-/-- the first separator splits -/
-theorem splitFirst_append_sep (a b : Str) (sep : Char) (h : sep ∉ a) :
-    splitFirst (a ++ sep :: b) sep = (a, some b) := by
-  rw [splitFirst_append_left a _ sep h, splitFirst_cons, if_pos rfl]
-  simp
-
-/-- what `splitFirst` returns is a decomposition of the string -/
-theorem splitFirst_spec (s : Str) (sep : Char) :
-    sep ∉ (splitFirst s sep).1 ∧
-    (match (splitFirst s sep).2 with
-     | none => s = (splitFirst s sep).1
-     | some b => s = (splitFirst s sep).1 ++ sep :: b) := by
-  induction s with
-  | nil => simp [splitFirst_nil]
-  | cons c s ih =>
-    rw [splitFirst_cons]
-    by_cases hc : c = sep
-    · simp [hc]
-    · simp only [if_neg hc]
-      obtain ⟨h1, h2⟩ := ih
-      refine ⟨by simp [h1, Ne.symm hc], ?_⟩
-      cases hb : (splitFirst s sep).2 with
-      | none => rw [hb] at h2; simp only [] at h2 ⊢; rw [← h2]
-      | some b => rw [hb] at h2; simp only [] at h2 ⊢; rw [List.cons_append, ← h2]
-
-/-! ## `splitOn` (`s.split(c)`) and `join` -/
-
-theorem splitOn_go_notMem (s acc : Str) (sep : Char) (h : sep ∉ s) :
-    splitOn.go sep s acc = [acc.reverse ++ s] := by
-  induction s generalizing acc with
-  | nil => simp [splitOn.go]
-  | cons c s ih =>
-    have hc : c ≠ sep := fun e => h (by simp [e])
-    have hs : sep ∉ s := fun e => h (by simp [e])
-    simp [splitOn.go, hc, ih _ hs]
-
-theorem splitOn_notMem (s : Str) (sep : Char) (h : sep ∉ s) : splitOn s sep = [s] := by
-  simp [splitOn, splitOn_go_notMem s [] sep h]
-
-theorem splitOn_go_append (a b acc : Str) (sep : Char) :
-    splitOn.go sep (a ++ sep :: b) acc = splitOn.go sep a acc ++ splitOn.go sep b [] := by
-  induction a generalizing acc with
-  | nil => simp [splitOn.go]
-  | cons c a ih =>
-    by_cases hc : c = sep
-    · simp [splitOn.go, hc, ih]
-    · simp [splitOn.go, hc, ih]
-
-/-- `(a + sep + b).split(sep) == a.split(sep) + b.split(sep)` -/
-theorem splitOn_append_sep (a b : Str) (sep : Char) :
-    splitOn (a ++ sep :: b) sep = splitOn a sep ++ splitOn b sep := by
-  simp [splitOn, splitOn_go_append]
-
-theorem splitOn_go_ne_nil (s acc : Str) (sep : Char) : splitOn.go sep s acc ≠ [] := by
-  induction s generalizing acc with
-  | nil => simp [splitOn.go]
-  | cons c s ih =>
-    by_cases hc : c = sep
-    · simp [splitOn.go, hc]
-    · simp [splitOn.go, hc, ih]
-
-/-- `split` never returns an empty list -/
-theorem splitOn_ne_nil (s : Str) (sep : Char) : splitOn s sep ≠ [] := splitOn_go_ne_nil s [] sep
-
-theorem splitOn_go_no_sep (s acc : Str) (sep : Char) (hacc : sep ∉ acc) :
-    ∀ p ∈ splitOn.go sep s acc, sep ∉ p := by
-  induction s generalizing acc with
-  | nil => simp [splitOn.go, hacc]
-  | cons c s ih =>
-    by_cases hc : c = sep
-    · simp only [splitOn.go, hc, if_true]
-      intro p hp
-      rcases List.mem_cons.mp hp with h | h
-      · rw [h]; simpa using hacc
-      · exact ih [] (by simp) p h
-    · simp only [splitOn.go, hc, if_false]
-      exact ih (c :: acc) (by simp [hacc, Ne.symm hc])
-
-/-- no piece of `s.split(sep)` contains `sep` -/
-theorem splitOn_no_sep (s : Str) (sep : Char) : ∀ p ∈ splitOn s sep, sep ∉ p :=
-  splitOn_go_no_sep s [] sep (by simp)
-
-theorem join_cons_cons (sep p q : Str) (rest : List Str) :
-    join sep (p :: q :: rest) = p ++ sep ++ join sep (q :: rest) := rfl
-
-/-- splitting a join of separator-free pieces gives the pieces back -/
-theorem splitOn_join (items : List Str) (sep : Char) (hne : items ≠ [])
-    (h : ∀ it ∈ items, sep ∉ it) : splitOn (join [sep] items) sep = items := by
-  induction items with
-  | nil => exact absurd rfl hne
-  | cons p rest ih =>
-    cases rest with
-    | nil => simp [join, splitOn_notMem p sep (h p (by simp))]
-    | cons q rest =>
-      rw [join_cons_cons, List.append_assoc, List.singleton_append, splitOn_append_sep,
-        splitOn_notMem p sep (h p (by simp)), ih (by simp) (fun it hit => h it (by simp [hit]))]
-      rfl
-
-theorem join_splitOn_go (s acc : Str) (sep : Char) :
-    join [sep] (splitOn.go sep s acc) = acc.reverse ++ s := by
-  induction s generalizing acc with
-  | nil => simp [splitOn.go, join]
-  | cons c s ih =>
-    by_cases hc : c = sep
-    · simp only [splitOn.go, hc, if_true]
-      have hne := splitOn_go_ne_nil s [] sep
-      cases hg : splitOn.go sep s [] with
-      | nil => exact absurd hg hne
-      | cons x xs =>
-        rw [join_cons_cons, ← hg, ih]
-        simp
-    · simp [splitOn.go, hc, ih]
-
-/-- `sep.join(s.split(sep)) == s` -/
-theorem join_splitOn (s : Str) (sep : Char) : join [sep] (splitOn s sep) = s := by
-  simpa [splitOn] using join_splitOn_go s [] sep
-
-/-! ## `lstrip(chars)` / `rstrip(chars)` -/
-
-theorem lstripChars_head (s : Str) (cs : List Char) :
-    ∀ c rest, lstripChars s cs = c :: rest → c ∉ cs := by
-  intro c rest h
-  unfold lstripChars at h
-  have := List.head?_dropWhile_not (fun x => cs.contains x) s
-  rw [h] at this
-  simpa using this
-
-theorem rstripChars_last (s : Str) (cs : List Char) :
-    ∀ c pre, rstripChars s cs = pre ++ [c] → c ∉ cs := by
-  intro c pre h
-  unfold rstripChars at h
-  have h' : List.dropWhile (fun x => cs.contains x) s.reverse = c :: pre.reverse := by
-    have := congrArg List.reverse h
-    simpa using this
-  have := List.head?_dropWhile_not (fun x => cs.contains x) s.reverse
-  rw [h'] at this
-  simpa using this
-
-theorem mem_takeWhile {α : Type} (p : α → Bool) (l : List α) :
-    ∀ x ∈ l.takeWhile p, p x = true := by
-  induction l with
-  | nil => simp
-  | cons a l ih =>
-    intro x hx
-    cases h : p a
-    · simp [List.takeWhile_cons_of_neg, h] at hx
-    · rw [List.takeWhile_cons_of_pos h] at hx
-      rcases List.mem_cons.mp hx with e | e
-      · rw [e]; exact h
-      · exact ih x e
-
-theorem lstripChars_suffix (s : Str) (cs : List Char) :
-    ∃ pre, s = pre ++ lstripChars s cs ∧ ∀ c ∈ pre, c ∈ cs := by
-  refine ⟨s.takeWhile (fun x => cs.contains x), ?_, ?_⟩
-  · unfold lstripChars; simp
-  · intro c hc
-    have := mem_takeWhile _ _ c hc
-    simpa using this
->>>>>>> agent/c15c20
 
 end Ural.Py
